@@ -241,13 +241,23 @@ func (p *Protocol) handleStreamIsFullNode(resp *types.P2PResponse) error {
 
 func (p *Protocol) handleStreamFetchShardPeers(req *types.P2PRequest, res *types.P2PResponse) error {
 	reqPeers := req.GetRequest().(*types.P2PRequest_ReqPeers).ReqPeers
+	// Count comes from the remote peer and NearestPeers sizes a slice with it while it holds
+	// the table's read lock: a negative count panics there (the lock stays held for ever),
+	// a huge one asks for gigabytes. No answer has more peers than the table holds.
+	if reqPeers.Count < 0 {
+		return types2.ErrInvalidParam
+	}
+	count := int(reqPeers.Count)
+	if size := p.getExtendRoutingTable().Size(); count > size {
+		count = size
+	}
 	var peers []peer.ID
 	if reqPeers.Count == 0 {
 		peers = p.getExtendRoutingTable().ListPeers()
 	} else if reqPeers.ReferKey == nil {
-		peers = p.getExtendRoutingTable().NearestPeers(kb.ConvertPeerID(p.Host.ID()), int(reqPeers.Count))
+		peers = p.getExtendRoutingTable().NearestPeers(kb.ConvertPeerID(p.Host.ID()), count)
 	} else {
-		peers = p.getExtendRoutingTable().NearestPeers(genDHTID(reqPeers.ReferKey), int(reqPeers.Count))
+		peers = p.getExtendRoutingTable().NearestPeers(genDHTID(reqPeers.ReferKey), count)
 	}
 
 	for _, pid := range peers {
